@@ -1,6 +1,7 @@
 package rules
 
 import (
+	"go/token"
 	"fmt"
 	"go/types"
 	"sort"
@@ -74,7 +75,7 @@ func checkC19(P *core.Program, R *core.Report) {
 						R.Add("C19-ambient", key, "floating-point arithmetic", P.Pos(P.InstrPos(in)), ok, "floating point results may differ across platforms. "+why)
 					}
 				case *ssa.Store:
-					if g, ok := x.Addr.(*ssa.Global); ok {
+					if g, ok := globalRoot(x.Addr); ok {
 						if fn.Name() == "init" || strings.HasPrefix(fn.Name(), "init#") {
 							continue
 						}
@@ -89,7 +90,31 @@ func checkC19(P *core.Program, R *core.Report) {
 						usedGl[gk] = true
 						R.Add("C19-process-memory", key, "store to keeper field "+core.FieldName(fa.X.Type(), fa.Field), P.Pos(P.InstrPos(in)), ok, "keeper fields are process memory; only wiring setters may write them. "+why)
 					}
+				case *ssa.MapUpdate:
+					// globalMap[k] = v
+					if ld, ok := x.Map.(*ssa.UnOp); ok && ld.Op == token.MUL {
+						if g, ok := globalRoot(ld.X); ok {
+							gk := key + " " + g.Name()
+							why, ok := T.Globals[gk]
+							usedGl[gk] = true
+							R.Add("C19-process-memory", key, "update of global map "+g.Name(), P.Pos(P.InstrPos(in)), ok, "state kept in process memory does not survive a restart and is not part of the app hash. "+why)
+						}
+					}
 				case ssa.CallInstruction:
+					// a mutating method of a sync / atomic container called on a package-level variable
+					// (sync.Map.Store, atomic.Int64.Add, sync.Once.Do …): a cache that lives in the process
+					if sc := x.Common().StaticCallee(); sc != nil && sc.Pkg != nil && len(x.Common().Args) > 0 &&
+						(sc.Pkg.Pkg.Path() == "sync" || sc.Pkg.Pkg.Path() == "sync/atomic") {
+						switch sc.Name() {
+						case "Store", "LoadOrStore", "LoadAndDelete", "Delete", "Swap", "CompareAndSwap", "CompareAndDelete", "Add", "Do", "Clear", "And", "Or":
+							if g, ok := globalRoot(x.Common().Args[0]); ok {
+								gk := key + " " + g.Name()
+								why, ok := T.Globals[gk]
+								usedGl[gk] = true
+								R.Add("C19-process-memory", key, sc.Name()+" on global "+g.Name(), P.Pos(P.InstrPos(in)), ok, "a package-level sync/atomic container written on the consensus path is a process-local cache: what it returns depends on this node's read history and is lost on restart. "+why)
+							}
+						}
+					}
 					ck := P.CalleeKey(x.Common())
 					if !ambientCallee(ck) {
 						continue
@@ -499,4 +524,27 @@ func storeKeyOrigin(ff *core.FuncFacts, v ssa.Value) (field, key string) {
 		break
 	}
 	return "?", ""
+}
+
+// globalRoot: the address is a package-level variable or runs into one through fields and
+// elements (global.f, global[i], (*globalPtr).f).
+func globalRoot(addr ssa.Value) (*ssa.Global, bool) {
+	for d := 0; d < 6; d++ {
+		switch x := addr.(type) {
+		case *ssa.Global:
+			return x, true
+		case *ssa.FieldAddr:
+			addr = x.X
+		case *ssa.IndexAddr:
+			addr = x.X
+		case *ssa.UnOp:
+			if x.Op != token.MUL {
+				return nil, false
+			}
+			addr = x.X
+		default:
+			return nil, false
+		}
+	}
+	return nil, false
 }
